@@ -17,8 +17,8 @@ warnings.filterwarnings('ignore')
 VERIF = os.path.dirname(os.path.dirname(os.path.abspath(__file__)))
 REPO = os.environ.get('VERIF_REPO', '/repo')
 SPECS = os.path.join(VERIF, 'specs')
-EVIDENCE = os.path.join(VERIF, 'evidence')
-REPLAYS = os.path.join(VERIF, 'replays')
+EVIDENCE = os.environ.get('VERIF_EVIDENCE_DIR', os.path.join(VERIF, 'evidence'))
+REPLAYS = os.environ.get('VERIF_REPLAYS_DIR', os.path.join(VERIF, 'replays'))
 GUARD = 'PYNETDICOM2_VERIF'
 
 
